@@ -1,13 +1,15 @@
 #!/bin/sh
-# Run once after a fresh restore, offline. Nothing is fetched: the harness crate
-# is compiled by ./check itself on every run (so that it always encodes /repo's
+# Run once after a fresh restore, offline. Nothing is fetched: the harness crates
+# are compiled by ./check itself on every run (so that they always encode /repo's
 # current working tree); this only verifies that the tool chain is present and
-# warms the dependency build of the external harness crate.
+# runs the native self-tests of the harness-side reference functions.
 set -e
 cd "$(dirname "$0")"
 export CARGO_NET_OFFLINE=true
 cargo kani --version
 cbmc --version
+cargo +nightly --version                      # MIR dumps for the second engine (drv/)
+python3-vt -c "import z3; print('z3', z3.get_version_string())"
 cp /repo/Cargo.lock kani/Cargo.lock
 mkdir -p evidence replays
 # native self-test of the harness-side reference functions
